@@ -2,11 +2,13 @@
   Stef.Receiver: the per-stream STEF receiver of the collector as a labelled transition system.
   Core Lean only (linked into the driver).
 
-  Transcribed from, AS WRITTEN (defects included; state of /repo after fix commit 3f3aa6e, which
-  made the reported bad-data range start at fromRecordID+1):
+  Transcribed from, AS WRITTEN (defects included; state of /repo after fix commits 3f3aa6e, which
+  made the reported bad-data range start at fromRecordID+1, and 3888867, which made the tick branch
+  of Run report pending bad data before it acknowledges and made sendBadDataResponse never lower
+  the acknowledged id):
     otelcol/internal/stefreceiver/stef.go                 onStream  (the decoding loop)
     otelcol/internal/stefreceiver/internal/responder.go   Responder (ScheduleAck,
-        ScheduleBadDataResponse, LastError, Stop, Run, composeBadDataResponse)
+        ScheduleBadDataResponse, LastError, Stop, Run, sendBadDataResponse, composeBadDataResponse)
 
   Two goroutines share `nextAckID` (atomic), `badDataCh` (channel, capacity 10), `lastError`
   (atomic) and `stopCh`. Each goroutine is a small program-counter machine; an event is one atomic
@@ -21,15 +23,21 @@
       needAck  --schedAck-->   top        nextAckID.Store(to)
       needBad  --schedBad-->   top        badDataCh <- {from,to}   (enabled only if len < 10)
   Responder.Run (program counter `QPc`)
-      idle      --tick-->      sending ack [] | idle     Load nextAckID; if > lastAckedID: lastAckedID = it
-      idle      --badRecv-->   composing                 <-badDataCh, AckRecordId = ToID, one range
+      idle      --tick-->      loaded rd                 `<-t.C`: readRecordID := nextAckID.Load()
+      loaded rd --badRecv-->   composing .. (some rd)    inner select, `case badData := <-r.badDataCh`
+      loaded rd --tickNoBad--> acking rd                 inner select, `default:` (channel found empty)
+      idle      --badRecv-->   composing .. none         outer select, `case badData := <-r.badDataCh`
       composing --badMore-->   composing                 another <-badDataCh in composeBadDataResponse
-      composing --badDone-->   sending ack ranges        `default:` branch: channel found empty
-      sending   --sendOk-->    idle                      SendDataResponse returned nil
-                                                         (bad-data branch: lastAckedID = AckRecordId)
-      sending   --sendFail-->  idle                      lastError.Store(err); a failed gRPC stream
-                                                         stays failed (`broken`)
+      composing --badDone-->   sending ack' ranges       `default:` branch: channel found empty; then
+                                                         `if AckRecordId < lastAckedID { AckRecordId = lastAckedID }`
+      sending   --sendOk-->    idle | acking rd          SendDataResponse returned nil
+                                                         (bad-data response: lastAckedID = AckRecordId)
+      sending   --sendFail-->  idle | acking rd          lastError.Store(err), lastAckedID unchanged; a failed
+                                                         gRPC stream stays failed (`broken`)
+      acking rd --tickAck-->   sending rd [] | idle      `if readRecordID > lastAckedID`: lastAckedID = it, send
       idle      --stop-->      stopped                   <-stopCh (closed by the deferred resp.Stop())
+    A bad-data response sent from inside the tick branch (`k = some rd`) continues at `acking rd`,
+    one sent from the outer bad-data branch (`k = none`) and every acknowledgement return to the select.
 
   Record ids are 1-based: the k-th record of the stream has id k = RecordCount() after reading it;
   a batch decoded while RecordCount() goes from `from_` to `to` holds the ids from_+1 .. to.
@@ -53,12 +61,21 @@ inductive RPc where
   | top | await | decoded | needAck (to : Nat) | needBad (fr to : Nat) | exited
 deriving DecidableEq, Repr
 
+/-- `k`: the `readRecordID` loaded by the tick branch when the bad-data response is sent from inside
+    that branch (`some rd`), `none` when it is sent from the bad-data branch of the outer select. -/
 inductive QPc where
   | idle
-  | composing (ack : Nat) (rs : List Range)
-  | sending (ack : Nat) (rs : List Range) (bad : Bool)
+  | loaded (rd : Nat)
+  | composing (ack : Nat) (rs : List Range) (k : Option Nat)
+  | sending (ack : Nat) (rs : List Range) (bad : Bool) (k : Option Nat)
+  | acking (rd : Nat)
   | stopped
 deriving DecidableEq, Repr
+
+/-- where Run continues after SendDataResponse returned -/
+def QPc.afterSend : Bool → Option Nat → QPc
+  | true, some rd => .acking rd
+  | _, _ => .idle
 
 structure Resp where
   ack : Nat
@@ -87,7 +104,7 @@ def init : State := {}
 
 inductive Event where
   | checkErr | decode (n : Nat) | readFail | consume (o : Outcome) | schedAck | schedBad
-  | tick | badRecv | badMore | badDone | sendOk | sendFail | stop
+  | tick | badRecv | badMore | badDone | tickNoBad | tickAck | sendOk | sendFail | stop
 deriving DecidableEq, Repr
 
 /-- `none`: the event is not enabled in `s`. -/
@@ -131,37 +148,51 @@ def step (s : State) : Event → Option State
       else none
     | _ => none
   | .tick =>
+    -- `case <-t.C: readRecordID := r.nextAckID.Load()`
     match s.qpc with
-    | .idle =>
-      if s.nextAck > s.lastAcked then
-        some { s with lastAcked := s.nextAck, qpc := .sending s.nextAck [] false }
-      else some s
+    | .idle => some { s with qpc := .loaded s.nextAck }
     | _ => none
   | .badRecv =>
+    -- `case badData := <-r.badDataCh` of the outer select (idle) or of the tick branch (loaded)
     match s.qpc, s.queue with
-    | .idle, h :: tl => some { s with queue := tl, qpc := .composing h.2 [h] }
+    | .idle, h :: tl => some { s with queue := tl, qpc := .composing h.2 [h] none }
+    | .loaded rd, h :: tl => some { s with queue := tl, qpc := .composing h.2 [h] (some rd) }
     | _, _ => none
   | .badMore =>
     match s.qpc, s.queue with
-    | .composing a rs, h :: tl =>
-      some { s with queue := tl, qpc := .composing (if a < h.2 then h.2 else a) (rs ++ [h]) }
+    | .composing a rs k, h :: tl =>
+      some { s with queue := tl, qpc := .composing (if a < h.2 then h.2 else a) (rs ++ [h]) k }
     | _, _ => none
   | .badDone =>
+    -- composeBadDataResponse returns; sendBadDataResponse: never acknowledge less than lastAckedID
     match s.qpc, s.queue with
-    | .composing a rs, [] => some { s with qpc := .sending a rs true }
+    | .composing a rs k, [] =>
+      some { s with qpc := .sending (if a < s.lastAcked then s.lastAcked else a) rs true k }
     | _, _ => none
+  | .tickNoBad =>
+    -- `default:` of the tick branch's inner select
+    match s.qpc, s.queue with
+    | .loaded rd, [] => some { s with qpc := .acking rd }
+    | _, _ => none
+  | .tickAck =>
+    match s.qpc with
+    | .acking rd =>
+      if rd > s.lastAcked then some { s with lastAcked := rd, qpc := .sending rd [] false none }
+      else some { s with qpc := .idle }
+    | _ => none
   | .sendOk =>
     match s.qpc with
-    | .sending a rs bad =>
+    | .sending a rs bad k =>
       if s.broken then none
       else some { s with resps := ⟨a, rs, true⟩ :: s.resps,
                          lastAcked := if bad then a else s.lastAcked,
-                         qpc := .idle }
+                         qpc := QPc.afterSend bad k }
     | _ => none
   | .sendFail =>
     match s.qpc with
-    | .sending a rs _ =>
-      some { s with resps := ⟨a, rs, false⟩ :: s.resps, lastError := true, broken := true, qpc := .idle }
+    | .sending a rs bad k =>
+      some { s with resps := ⟨a, rs, false⟩ :: s.resps, lastError := true, broken := true,
+                    qpc := QPc.afterSend bad k }
     | _ => none
   | .stop =>
     match s.qpc with
@@ -188,11 +219,12 @@ def reported (s : State) : List Range := (s.resps.reverse).flatMap (·.ranges)
 def reportedOk (s : State) : List Range := ((s.resps.reverse).filter (·.ok)).flatMap (·.ranges)
 
 /-- ranges received from the channel by Run and not yet handed to SendDataResponse -/
-def inflight (s : State) : List Range :=
-  match s.qpc with
-  | .composing _ rs => rs
-  | .sending _ rs _ => rs
+def QPc.infl : QPc → List Range
+  | .composing _ rs _ => rs
+  | .sending _ rs _ _ => rs
   | _ => []
+
+def inflight (s : State) : List Range := s.qpc.infl
 
 /-- the range the loop is about to put into the channel -/
 def rpcBad (s : State) : List Range :=
@@ -225,15 +257,32 @@ def Batch.has (b : Batch) (i : Nat) : Prop := b.from_ < i ∧ i ≤ b.to
     permanently rejected batch (`FromID: fromRecordID + 1, ToID: toRecordID`) -/
 def Batch.exactRange (b : Batch) : Range := (b.from_ + 1, b.to)
 
-/-- "no tick fires while bad data is waiting in the channel": the excluding hypothesis of the
-    `_partial` theorems. A run satisfies it when every `tick` event happens with an empty queue. -/
-def TickClean : State → List Event → Prop
-  | _, [] => True
-  | s, e :: es =>
-    (e = .tick → s.queue = []) ∧
-    match step s e with
-    | some s' => TickClean s' es
-    | none => True
+/-- the id loaded by the tick branch that is still waiting to be acknowledged (`readRecordID`) -/
+def QPc.rd : QPc → Option Nat
+  | .loaded rd => some rd
+  | .composing _ _ k => k
+  | .sending _ _ true k => k
+  | .acking rd => some rd
+  | _ => none
+
+/-- ranges of the successfully sent responses of a list of responses -/
+def okRanges (rs : List Resp) : List Range := (rs.filter (·.ok)).flatMap (·.ranges)
+
+/-- `Covered`, per record id: every id `1 .. a` belongs to a batch of the stream that the consumer
+    accepted, or rejected permanently and whose exact range is in a successfully sent response -/
+def CoveredIds (s : State) (a : Nat) : Prop :=
+  ∀ i, 0 < i → i ≤ a → ∃ b ∈ s.batches, b.has i ∧
+    (b.out = .accept ∨ (b.out = .perm ∧ b.exactRange ∈ reportedOk s))
+
+/-- The acknowledgement clause of C16 over the whole response history of a state (`hist` = the
+    SendDataResponse calls, oldest first): for every successfully sent response `r` and every record
+    id `1 ≤ i ≤ r.ack` there is a batch holding `i` which was accepted by the consumer, or was
+    rejected permanently and whose exact id range is among the bad-data ranges of a successfully
+    sent response that is `r` itself or precedes `r` ("sent no later than that ack"). -/
+def AckHistory (s : State) : Prop :=
+  ∀ pre r post, s.resps.reverse = pre ++ r :: post → r.ok = true →
+    ∀ i, 0 < i → i ≤ r.ack → ∃ b ∈ s.batches, b.has i ∧
+      (b.out = .accept ∨ (b.out = .perm ∧ b.exactRange ∈ okRanges (pre ++ [r])))
 
 /-! ### writer / reader record counters (C16 `lockstep`)
 
